@@ -145,11 +145,13 @@ def r2(repo, chk):
     chk.ob("R2", "the advertised limit does not change after construction", not writers, f"{writers}", "")
     rp = Fn(repo, CONN + "_replenish_connection_ids")
     loops = [l for l in rp.stmts(lambda s: isinstance(s, ast.While))]
-    ok = len(loops) == 1 and natom(norm(loops[0].test)) == natom("len(self._host_cids) < min(8, self._remote_active_connection_id_limit)")
     apps = [c for c in rp.calls(name="self._host_cids.append")]
-    ok = ok and len(apps) == 1 and inside(apps[0], loops[0]) and not [a for a in rp.calls(name="self._host_cids.append") if not inside(a, loops[0])]
+    # the bound holds on every path to the append, re-evaluated every trip round the loop (loop test, or `while True`
+    # with a breaking test in front) - locals such as a hoisted bound are read through only if computed inside the loop
+    bound = natom("len(self._host_cids) < min(8, self._remote_active_connection_id_limit)")
+    ok = len(loops) == 1 and len(apps) == 1 and inside(apps[0], loops[0]) and (bound in rp.guard_atoms(apps[0]) or bound in rp.guard_atoms_x(apps[0]))
     chk.ob("R2", "_replenish_connection_ids issues IDs only while fewer than min(8, the peer's active_connection_id_limit) are active", ok, "", rp.loc(rp.node))
-    seq = [st for st, t, v in rp.assigns(chain="self._host_cid_seq") if isinstance(st, ast.AugAssign)]
+    seq = [st for st, op_, v in rp.updates("self._host_cid_seq")]
     chk.ob("R2", "every issued ID gets a fresh sequence number", len(seq) == 1 and bool(loops) and inside(seq[0], loops[0]), "", rp.loc(rp.node))
     others = [fn.qual for fn in _conn_fns(repo) for c in fn.calls(name="self._host_cids.append") if fn.qual != "QuicConnection._replenish_connection_ids"]
     chk.ob("R2", "connection IDs are issued only by _replenish_connection_ids", not others, f"{others}", "")
@@ -231,7 +233,7 @@ def r3(repo, chk):
             ok = ("self._peer_cid_available", True) in at or natom("not self._peer_cid_available", False) in at
             chk.ob("R3", f"{fn.qual.split('.')[-1]}: a replacement ID is taken only when one is available", ok, f"guards {at[-3:]}", fn.loc(c))
     cp = Fn(repo, CONN + "_consume_peer_cid")
-    ok = any(norm(v) == "self._peer_cid_available.pop(0)" for st, t, v in cp.assigns(chain="self._peer_cid"))
+    ok = any(cp.expand(v, 2) == "self._peer_cid_available.pop(0)" for st, t, v in cp.assigns(chain="self._peer_cid"))
     chk.ob("R3", "_consume_peer_cid takes the oldest stored ID", ok, "", cp.loc(cp.node))
     # a missing replacement after retiring the active ID is an error, not a silent continuation
     rs = [r for r in _raises_with(h, "PROTOCOL_VIOLATION") if natom("not self._peer_cid_available") in h.guard_atoms(r) or ("self._peer_cid_available", False) in h.guard_atoms(r)]
